@@ -104,3 +104,5 @@ open Csproto
 #print axioms Csproto.C01.Source.source_roundtrip_bytes
 #print axioms Csproto.C01.Source.source_roundtrip_packed_sint64
 #print axioms Csproto.C01.Source.source_roundtrip_packed_int64
+#print axioms Csproto.Bridge.PackedEncFuncs.bool_loop
+#print axioms Csproto.Bridge.PackedEncFuncs.EncodePackedBool_refines
